@@ -67,6 +67,21 @@ def match(p, n, env) -> bool:
         return match(p.targets[0], n.target, env) and match(p.value, n.value, env)
     if type(p) is not type(n):
         return False
+    if isinstance(p, ast.Call) and p.keywords and all(k.arg is not None for k in p.keywords) \
+            and all(k.arg is not None for k in n.keywords):
+        # keyword arguments are matched by name, in any order
+        if len(p.keywords) != len(n.keywords) or len(p.args) != len(n.args):
+            return False
+        if not match(p.func, n.func, env):
+            return False
+        for a, b in zip(p.args, n.args):
+            if not match(a, b, env):
+                return False
+        nk = {k.arg: k.value for k in n.keywords}
+        for k in p.keywords:
+            if k.arg not in nk or not match(k.value, nk[k.arg], env):
+                return False
+        return True
     for fname in p._fields:
         if fname in ("ctx", "type_comment", "lineno", "col_offset", "end_lineno",
                      "end_col_offset", "kind"):
